@@ -65,11 +65,19 @@ type c17World struct {
 	double string // when set, the handler renders this format first and then op (same request)
 }
 
-func c17Build(o c17Opts) *c17World {
+func c17Build(o c17Opts) *c17World { return c17BuildStacked(o, nil) }
+
+// c17BuildStacked: with o2, a second route /stacked carries a Renderer of its own with other options (its
+// responses are not asserted; what it must not do is change what the application's Renderer does elsewhere).
+func c17BuildStacked(o c17Opts, o2 *c17Opts) *c17World {
 	w := &c17World{f: flamego.NewWithLogger(io.Discard)}
 	w.f.Use(flamego.Renderer(flamego.RenderOptions{Charset: o.Charset, JSONIndent: o.JSONIndent, XMLIndent: o.XMLIndent}))
 	w.f.Use(func() {}) // some handler in between
-	w.f.Routes("/", "GET,HEAD,POST", func(c flamego.Context) {}, func(r flamego.Render) {
+	var render func(r flamego.Render)
+	if o2 != nil {
+		w.f.Get("/stacked", flamego.Renderer(flamego.RenderOptions{Charset: o2.Charset, JSONIndent: o2.JSONIndent, XMLIndent: o2.XMLIndent}), func(r flamego.Render) { render(r) })
+	}
+	render = func(r flamego.Render) {
 		if w.double != "" {
 			// a first render of another format in the same request (its own response is not asserted)
 			switch w.double {
@@ -93,8 +101,29 @@ func c17Build(o c17Opts) *c17World {
 		case "PlainText":
 			r.PlainText(w.op.Status, w.op.Val.(string))
 		}
-	})
+	}
+	w.f.Routes("/", "GET,HEAD,POST", func(c flamego.Context) {}, func(r flamego.Render) { render(r) })
 	return w
+}
+
+// c17AfterStacked: on a fresh instance the render on the plain route, then a request through the route with a
+// second Renderer (other options), then the plain route again: both plain responses follow the application's options.
+func c17AfterStacked(o, o2 c17Opts, op c17Op) (bad, kind string) {
+	w := c17BuildStacked(o, &o2)
+	if bad, kind = c17Judge(w, o, op); bad != "" {
+		return bad, kind
+	}
+	for i := 0; i < 2; i++ {
+		w.op = op
+		func() {
+			defer func() { _ = recover() }()
+			w.f.ServeHTTP(&c01Spy{hdr: http.Header{}}, newReq("GET", "/stacked"))
+		}()
+		if bad, kind = c17Judge(w, o, op); bad != "" {
+			return fmt.Sprintf("after %d request(s) through a route with a second Renderer configured %+v: ", i+1, o2) + bad, kind + "/after-second-renderer"
+		}
+	}
+	return "", ""
 }
 
 func c17Judge(w *c17World, o c17Opts, op c17Op) (bad, kind string) {
@@ -249,6 +278,8 @@ type c17Case struct {
 	Seq    bool    `json:"after_HEAD_GET_POST_sequence,omitempty"`
 	// Refused: the request follows, on the same instance, a request whose value the encoder refused
 	Refused bool `json:"after_a_request_whose_value_the_encoder_refused,omitempty"`
+	// Stacked: the options of a second Renderer on another route that served requests in between
+	Stacked *c17Opts `json:"second_renderer_on_another_route,omitempty"`
 }
 
 // c17Refused returns values of the same top-level type as v that the standard encoders refuse (a
@@ -346,7 +377,7 @@ func c17Run(r *core.Run) {
 		}
 	}
 	ops := c17Ops(r.Thorough())
-	r.Rule = "engine E: every status 100..999 x {JSON, XML, Binary, PlainText} x all 8 option sets (charset x JSON indent x XML indent); values: every byte string of length <=1 and a grid (thorough: all) of length 2 plus longer ones for Binary/PlainText, JSON trees over {null,bool,numbers,strings incl. html-sensitive and non-ASCII} to depth 2 width 2 plus structs/slices/maps, five XML struct shapes with all field values from {'', a, <&>\", e-acute, blanks, ]]>}; every JSON/XML value with an interface in it also as the request after one or two requests (same instance) whose value of the same type the encoder refused; oracle: exact status at the underlying writer, exact Content-Type, bytes/strings verbatim, JSON/XML text equal to the standard encoder's output with the configured indentation and decoding back to an equal value; non-trivial = non-200 status or a value that needs escaping"
+	r.Rule = "engine E: every status 100..999 x {JSON, XML, Binary, PlainText} x all 8 option sets (charset x JSON indent x XML indent); values: every byte string of length <=1 and a grid (thorough: all) of length 2 plus longer ones for Binary/PlainText, JSON trees over {null,bool,numbers,strings incl. html-sensitive and non-ASCII} to depth 2 width 2 plus structs/slices/maps, five XML struct shapes with all field values from {'', a, <&>\", e-acute, blanks, ]]>}; every third render also around requests through a route that carries a second Renderer with other options; every JSON/XML value with an interface in it also as the request after one or two requests (same instance) whose value of the same type the encoder refused; oracle: exact status at the underlying writer, exact Content-Type, bytes/strings verbatim, JSON/XML text equal to the standard encoder's output with the configured indentation and decoding back to an equal value; non-trivial = non-200 status or a value that needs escaping"
 	r.Bounds["ops"] = len(ops)
 	r.Bounds["option_sets"] = len(optsets)
 	r.Assumptions = []string{"encoding/json and encoding/xml are the reference encoders (trusted)", "values the standard encoders refuse are outside the statement"}
@@ -420,6 +451,21 @@ func c17Run(r *core.Run) {
 						}
 					}
 				}
+				var stacked *c17Opts
+				if bad == "" && seq {
+					for _, d := range []int{1, 3, 6} {
+						o2 := optsets[(si+d)%len(optsets)]
+						l.States++
+						l.Evals++
+						l.Transitions += 5
+						l.Traces++
+						l.Extra["episodes_with_a_second_renderer"]++
+						if bad, kind = c17AfterStacked(o, o2, op); bad != "" {
+							stacked = &o2
+							break
+						}
+					}
+				}
 				refused := false
 				if bad == "" {
 					bad, kind = c17AfterRefused(o, op, func() {
@@ -433,8 +479,8 @@ func c17Run(r *core.Run) {
 				}
 				if bad != "" {
 					l.Class("mismatch")
-					l.Violate(kind+"/"+op.Kind, bad+fmt.Sprintf(" [options %+v, %s(%d, %s)]", o, op.Kind, op.Status, trunc(fmt.Sprintf("%#v", op.Val))), c17Case{Opts: o, Kind: op.Kind, Status: op.Status, Val: trunc(fmt.Sprintf("%#v", op.Val)), Index: oi, Refused: refused,
-						Seq: seq && !refused && (strings.HasPrefix(bad, "in the request sequence") || strings.HasPrefix(bad, "after an earlier request"))})
+					l.Violate(kind+"/"+op.Kind, bad+fmt.Sprintf(" [options %+v, %s(%d, %s)]", o, op.Kind, op.Status, trunc(fmt.Sprintf("%#v", op.Val))), c17Case{Opts: o, Kind: op.Kind, Status: op.Status, Val: trunc(fmt.Sprintf("%#v", op.Val)), Index: oi, Refused: refused, Stacked: stacked,
+						Seq: seq && !refused && stacked == nil && (strings.HasPrefix(bad, "in the request sequence") || strings.HasPrefix(bad, "after an earlier request"))})
 					continue
 				}
 				l.Class(fmt.Sprintf("%s:%dxx", op.Kind, op.Status/100))
@@ -518,6 +564,9 @@ func c17Replay(raw json.RawMessage) (bool, string) {
 						}
 					}
 				}
+			}
+			if bad == "" && c.Stacked != nil {
+				bad, _ = c17AfterStacked(c.Opts, *c.Stacked, ops[c.Index])
 			}
 			if bad == "" && c.Refused {
 				bad, _ = c17AfterRefused(c.Opts, ops[c.Index], func() {})
